@@ -43,6 +43,11 @@ class AdditiveGridInterpolationVariationalStrategy(GridInterpolationVariationalS
         covar = out.lazy_covariance_matrix.repeat(self.num_dim, 1, 1)
         return MultivariateNormal(mean, covar)
 
+    def kl_divergence(self) -> Tensor:
+        # one KL per additive component; q(f) is their sum when the outputs are summed
+        kl_divergence = super().kl_divergence()
+        return kl_divergence.sum(0) if self.sum_output else kl_divergence
+
     def _compute_grid(self, inputs: Tensor) -> Tuple[LongTensor, Tensor]:
         num_data, num_dim = inputs.size()
         inputs = inputs.transpose(0, 1).reshape(-1, 1)
